@@ -151,11 +151,17 @@ LogOps == {O("ctor"), Op("ctor", 0, 0, 1), O("dtor"), O("update"), Op("react", 1
 LogActs == {A("T", 1, 0, 0), A("X", 0, 0, 0), A("S", NONE, 0, 0), A("F", NONE, 0, 0), A("F", 1, 0, 0), A("S", 0, 0, 0)}
 LogPoints == {<<M_UPDATE, ANY>>, <<M_ENTRY_GUARD, ANY>>, <<M_REACT, ANY>>}
 SparseDef == [i \in 1 .. (N + 1) |-> IF i = 1 THEN 18450 ELSE IF i = 2 THEN 32766 ELSE IF i = 3 THEN 2084 ELSE 0]
+\* injections x plans: reports (for the reporter itself and for another state) made by injections and by the classes themselves, before
+\* and after each other within one delivery; plan outcomes delivered through the root's injection
+InjPlanOps == {O("ctor"), O("update"), Op("react", 1, 0, 0), Op("pc", 0, 1, 0), Op("pc", 1, 0, 0), Op("ito", 1, 0, 0)}
+InjPlanActs == {A("S", NONE, 0, 0), A("F", NONE, 0, 0), A("F", 1, 0, 0), A("S", 0, 0, 0), A("PX", 0, 0, 0)}
+InjPlanPoints == {<<M_UPDATE, ANY>>, <<M_POST_UPDATE, ANY>>, <<M_POST_REACT, ANY>>}
 Inj2 == [i \in 1 .. (N + 1) |-> IF i = 1 THEN 1 ELSE IF i = 2 THEN 2 ELSE IF i = 3 THEN 1 ELSE 0]
 
 -----------------------------------------------------------------------------
 (* Reachability witnesses: each must be VIOLATED (the situation it negates is *)
 (* reachable), otherwise the invariants above would hold vacuously.           *)
+W_FailForAnotherState  == ~(tk.outcome = 2 /\ tk.repF /\ tk.act0 = 0 /\ tk.sawF = {1})   \* planFailed after the active state reported another state's failure
 W_Deactivated          == ~(tk.op = "dtor" /\ ~tk.incall /\ ~tk.alive)
 W_ReenterByLoad        == ~(tk.op = "load" /\ \E s \in States : tk.life = <<<<M_REENTER, s>>>>)
 W_LaterRequestReplaces == ~(IsProcOp(tk.op) /\ ~tk.incall /\ tk.rounds >= 2 /\ tk.surv # NoT /\ Cardinality(tk.passed) >= 2)
